@@ -26,9 +26,9 @@ func vRegime(rr *rand.Rand) (min, max time.Duration) {
 func vSrc(kind, i int) string {
 	switch kind {
 	case 0:
-		return fmt.Sprintf("fe80::1:%x", i+1)
+		return fmt.Sprintf("fe80::1:%x:%x", (i+1)>>16, (i+1)&0xffff)
 	case 1:
-		return fmt.Sprintf("2001:db8::c:%x", i+1)
+		return fmt.Sprintf("2001:db8::c:%x:%x", (i+1)>>16, (i+1)&0xffff)
 	case 2:
 		return fmt.Sprintf("fe80::aa:%x", i%3+1) // repeated sources
 	}
